@@ -191,6 +191,32 @@ def make_form(form, path, gzpath, text, c):
     raise ValueError(form)
 
 
+SHARED = ["chr1\tsrc\tgene\t1\t900\t.\t+\t.\tID=g1", "chr1\tsrc\tmRNA\t1\t900\t.\t+\t.\tID=m1;Parent=g1",
+          "chr1\tsrc\texon\t1\t100\t.\t+\t.\tParent=m1", "chr1\tsrc\tCDS\t10\t90\t.\t+\t0\tParent=m1",
+          "chr1\tsrc\texon\t300\t400\t.\t+\t.\tParent=m1", "chr1\tsrc\texon\t600\t900\t.\t+\t.\tParent=m1"]
+
+
+def shared_column_scenario(d, checklines):
+    from gffutils import iterators
+    from gffutils.feature import feature_from_line
+
+    def tag(f):
+        f.attributes.setdefault("seen", []).append("%s:%s" % (f.featuretype, f.start))
+        return f
+    path = os.path.join(d, "shared.gff")
+    with open(path, "w") as fh:
+        fh.write("\n".join(SHARED) + "\n")
+    want = None
+    for data, kw in ((path, {}), ("\n".join(SHARED) + "\n", {"from_string": True}), ([feature_from_line(l) for l in SHARED], {}),
+                     ((feature_from_line(l) for l in SHARED), {})):
+        got = [str(f) for f in iterators.DataIterator(data, checklines=checklines, transform=tag, **kw)]
+        if want is None:
+            want = got
+        elif got != want:
+            return False
+    return len(want) == len(SHARED) and all(x.count("seen=") == 1 and "," not in x.split("seen=")[1] for x in want)
+
+
 def run_impl(c):
     import gffutils
     from gffutils import iterators
@@ -275,6 +301,10 @@ def run_impl(c):
             except Exception as ex:
                 o["db"] = ["err", L.err_class(ex)]
             obs.append(o)
+        # lines that share their attribute column, and a transform that edits the attributes it is given in place: every line
+        # is still a feature of its own, in every form
+        if not shared_column_scenario(d, c["checklines"]):
+            obs[0]["seq"] = ["err", "Other"]
         # "the same sequence of Features": not only the printed lines but the attribute mappings agree across input forms
         base = next((o["_attrs"] for o in obs if "_attrs" in o), None)
         for o in obs:
